@@ -30,6 +30,7 @@ final status / terminated flag of every step, the tasks still pending, and the t
 from __future__ import annotations
 
 import asyncio
+import itertools
 import json
 import os
 import posixpath
@@ -236,6 +237,43 @@ CORPUS = [
         {"id": 2, "kind": "loop", "ins": [1, 3], "outs": [4], "k": 2},
         {"id": 3, "kind": "gather", "ins": [4, 2], "outs": [5], "depth": 1},
         {"id": 4, "kind": "tf", "ins": [5], "outs": [6], "fn": "sum", "k": 0}]},
+    # a job pipeline with TWO input ports that deliver the tags in DIFFERENT orders (one branch comes out of jobs, i.e.
+    # reversed under the even schedule seeds, the other straight from a transformer), both port orders: the ScheduleStep must
+    # build the job of a tag from the tokens of THAT tag (not from those of its last reading round)
+    *[{"nports": 7, "sources": [{"port": 0, "value": [4, 5, 6, 7]}], "closed": [], "nodes": [
+        {"id": 0, "kind": "scatter", "ins": [0], "outs": [1, 2]},
+        {"id": 1, "kind": "tf", "ins": [1], "outs": [3], "fn": "add", "k": 1},
+        {"id": 2, "kind": "exec", "ins": [1], "outs": [4], "k": 1},
+        {"id": 3, "kind": "exec", "ins": ins, "outs": [5], "k": 2},
+        {"id": 4, "kind": "gather", "ins": [5, 2], "outs": [6], "depth": 1}]} for ins in ([3, 4], [4, 3])],
+]
+
+
+def _arrival(ds: float, dp: float, dq: float) -> dict:
+    """dot(s scattered, p plain, q plain); the three inputs reach the combinator after `ds` / `dp` / `dq` seconds"""
+    return {"nports": 13, "sources": [{"port": 0, "value": [1, 2, 3]}, {"port": 1, "value": 10}, {"port": 2, "value": 100}],
+            "closed": [], "nodes": [
+        {"id": 0, "kind": "tf", "ins": [0], "outs": [3], "fn": "add", "k": 0, "delay": ds},
+        {"id": 1, "kind": "scatter", "ins": [3], "outs": [4, 5]},
+        {"id": 2, "kind": "tf", "ins": [1], "outs": [6], "fn": "add", "k": 0, "delay": dp},
+        {"id": 3, "kind": "tf", "ins": [2], "outs": [7], "fn": "add", "k": 0, "delay": dq},
+        {"id": 4, "kind": "dot", "ins": [4, 6, 7], "outs": [8, 9, 10]},
+        {"id": 5, "kind": "tf", "ins": [8, 9, 10], "outs": [11], "fn": "lin", "k": 0},
+        {"id": 6, "kind": "gather", "ins": [11, 5], "outs": [12], "depth": 1}]}
+
+
+# combinators under CONTROLLED arrival orders (used by C05): one scattered and two plain inputs in all 6 arrival orders
+# (e.g. plain p, then the scattered elements, then plain q: q must still be combined with every element), plus a variant
+# in which the order is forced by a data dependency (q is computed from the gathered elements) instead of by the clock
+ARRIVAL_CORPUS = [_arrival(*[0.12 * r for r in perm]) for perm in itertools.permutations((0, 1, 2))] + [
+    {"nports": 13, "sources": [{"port": 0, "value": [1, 2, 3]}, {"port": 1, "value": 10}], "closed": [], "nodes": [
+        {"id": 0, "kind": "scatter", "ins": [0], "outs": [2, 3]},
+        {"id": 1, "kind": "gather", "ins": [2, 3], "outs": [4], "depth": 1},
+        {"id": 2, "kind": "tf", "ins": [4], "outs": [5], "fn": "sum", "k": 0},
+        {"id": 3, "kind": "dot", "ins": [2, 1, 5], "outs": [6, 7, 8]},
+        {"id": 4, "kind": "tf", "ins": [6, 7, 8], "outs": [9], "fn": "lin", "k": 0},
+        {"id": 5, "kind": "gather", "ins": [9, 3], "outs": [10], "depth": 1},
+        {"id": 6, "kind": "tf", "ins": [10], "outs": [11, 12], "fn": "split", "k": 0}]},
 ]
 
 
@@ -555,7 +593,7 @@ async def build(context, spec: dict, workdir: str):
         kind = n["kind"]
         if kind == "tf":
             step = workflow.create_step(cls=GenTransformer, name=name, fn=n["fn"], k=n.get("k", 0), nin=len(n["ins"]),
-                                        fail_tag=(n.get("fail") or {}).get("tag"))
+                                        fail_tag=(n.get("fail") or {}).get("tag"), delay=n.get("delay", 0.0))
             for j, p in enumerate(n["ins"]):
                 step.add_input_port(f"i{j}", ports[p])
             for j, p in enumerate(n["outs"]):
